@@ -4,6 +4,8 @@ from rules import shared
 from rules.shared import SPEC
 from rulelib import walk, match_table, nonpanic, path_sig, event_strs, where, const_int, call_sites, canon
 
+import witness
+
 EXPLANATION = ("Bit predicates of StreamId as expression trees (is_bidirectional == id&2==0, is_client_initiated == id&1==0, is_local == (id&1)==is_server); "
                "SessionId::try_from_session_stream accepts iff both; QStreamId shifts / MAX / guard; constructor discipline (private fields, unsafe "
                "unchecked constructors, every call site of them is an obligation discharged in C11-R4); session filtering: Driver::accept_uni / "
@@ -68,6 +70,8 @@ def run(ctx):
     extra = sites - allowed
     ctx.check("C17-R2", "callers of unchecked constructors", not extra, "new call site(s) of an unsafe unchecked id constructor (each needs a range proof, see C11-R4): %s" % sorted(extra))
     ctx.floor("C17-R2", "unchecked-constructor call sites", len(sites), 6)
+
+    witness.run(ctx, "C17-R2", {"C17"})
 
     ctx.rule("C17-R3", "filtering: only `== session_id` items are returned; foreign streams are stopped with BufferedStreamRejected; loop continues")
     shared.driver_session_filters(ctx, "C17-R3")
